@@ -71,6 +71,8 @@ def impl(case):
                 "inputs_unchanged": a1.tobytes() == b1 and a2.tobytes() == b2}
     # associate: poses carry a tag (index within their own trajectory) in position and orientation
     t1, t2 = _traj(s1, range(len(s1))), _traj(s2, range(len(s2)))
+    if case.get("same_object"):   # one trajectory object handed over in both roles (s1 == s2 in such cases)
+        t2 = t1
     if (len(s1) + len(s2)) % 2:   # the 4x4 matrices were already looked at (transform(), check(), a plot ...) before the association
         t1.poses_se3, t2.poses_se3
     snap1, snap2 = _snapshot(t1), _snapshot(t2)
@@ -233,6 +235,11 @@ CORPUS = [
     mk("assoc", [1.0, 2.0], [1.25, 2.25], 0.25, -0.25),
     mk("assoc", [1.25, 2.25, 3.25], [1.0, 2.0], 0.0, 0.25),
 ]
+# one trajectory OBJECT in both roles, with and without an offset (equal lengths: the first argument is the long one)
+for _off, _maxd in ((0.0, 0.25), (-2.0, 0.25), (2.0, 0.25), (1.0, 0.0), (-0.5, 1.0)):
+    _c = mk("assoc", [0.0, 1.0, 2.0, 3.0, 4.0, 5.0], [0.0, 1.0, 2.0, 3.0, 4.0, 5.0], _maxd, _off)
+    _c["same_object"] = True
+    CORPUS.append(_c)
 
 
 def grid_cases(ctx):
